@@ -15,5 +15,5 @@ HARNESSES['c04_sd'] = dict(src='c04_spandata.cc', defines=['OTEL_INTERNAL_LOG_LE
 QUERIES.append(dict(name='spandata_scalars_owned', harness='c04_sd', entry='h_spandata_scalars', unwind=18, unwindset=US, rec_unwind=3, timeout=900, tier='quick',
        shape='real SpanData: one or two SetName (3- and 2-byte symbolic names), one or two SetStatus (symbolic codes, descriptions of symbolic length 0 or 2), symbolic identity/flags/kind/start/duration; caller buffers freed before the getters are read'))
 BOUNDS = ['2 operations per span in the quick tier (3 and 4 thorough), one processor (mock) and mock recordable']
-OUTSIDE = ['Span destruction ending an open span (shared_ptr disposers are not run in these queries: measured, with the real release path the 2-operation query did not finish in 600 s)', 'SpanData attribute map, events and links (std::unordered_map / std::vector of variants: heavy-STL gate, DESIGN.md 7.7)', 'MultiRecordable fan-out', 'several threads on one span (mutex discipline only through the self-deadlock model)']
+OUTSIDE = ['MultiRecordable / MultiSpanProcessor fan-out (harness/c04_multi.cc exists; MultiRecordable keys a std::map by the numeric address of each processor, and CBMC could not decide the pointer-as-integer ordering: no end of symbolic execution in 300 s for 2 processors - parked)', 'Span destruction ending an open span (shared_ptr disposers are not run in these queries: measured, with the real release path the 2-operation query did not finish in 600 s)', 'SpanData attribute map, events and links (std::unordered_map / std::vector of variants: heavy-STL gate, DESIGN.md 7.7)', 'several threads on one span (mutex discipline only through the self-deadlock model)']
 ASSUMPTIONS = ['std::shared_ptr release does not run disposers', 'pthread mutex = owner flag', 'clocks arbitrary non-decreasing']
